@@ -347,6 +347,47 @@ pub fn run(tier: Tier) -> i32 {
             check(Seg::E, vec![l.clone()], emit(Dir::Db, &ops, false), format!("seg=eseg/{}", hint), 0);
         });
     }
+    // 3b. literals at and beyond the 64-bit range in every radix: 2^63 and above cannot be
+    //     written (no directive may take them for a small negative number)
+    let n_biglit = AtomicU64::new(0);
+    {
+        let ones64 = format!("0b{}", "1".repeat(64));
+        let top64 = format!("0b1{}", "0".repeat(63));
+        let lits: Vec<(String, Option<i128>)> = vec![
+            ("0x7FFFFFFFFFFFFFFF".into(), Some(i64::MAX as i128)),
+            ("$7fffffffffffffff".into(), Some(i64::MAX as i128)),
+            ("0xFFFFFFFFFFFFFFFF".into(), None),
+            ("$FFFFFFFFFFFFFFFF".into(), None),
+            ("0xFFFFFFFFFFFFFF80".into(), None),
+            ("0xFFFFFFFFFFFF8000".into(), None),
+            ("$FFFFFFFF80000000".into(), None),
+            ("0x8000000000000000".into(), None),
+            (ones64, None),
+            (top64, None),
+            ("18446744073709551615".into(), None),
+            ("9223372036854775808".into(), None),
+            ("01777777777777777777777".into(), None),
+            ("0x10000000000000000".into(), None),
+        ];
+        let mut lw: Vec<(Dir, usize, usize)> = vec![];
+        for d in [Dir::Db, Dir::Dw, Dir::Dd, Dir::Dq] {
+            for li in 0..lits.len() {
+                for place in 0..2usize {
+                    lw.push((d, li, place));
+                }
+            }
+        }
+        lw.par_iter().for_each(|(d, li, place)| {
+            let (t, v) = &lits[*li];
+            let lit = Op::Val(t.clone(), *v);
+            let ops: Vec<Op> = if *place == 0 { vec![lit] } else { vec![Op::Val("1".into(), Some(1)), lit] };
+            let l = line(*d, &ops);
+            n_biglit.fetch_add(2, Ordering::Relaxed);
+            let hint = format!("dir={}/literal={}", d.name(), if t.len() > 24 { format!("{}...({} chars)", &t[..6], t.len()) } else { t.clone() });
+            check(Seg::C, vec![l.clone()], emit(*d, &ops, true), format!("seg=cseg/{}", hint), 0);
+            check(Seg::E, vec![l.clone()], emit(*d, &ops, false), format!("seg=eseg/{}", hint), 0);
+        });
+    }
     // 4. symbols whose values do not fit the narrower widths: a label beyond 64 K words, large and
     //    negative constants, a .set variable - bare and inside expressions
     let n_bigsym = AtomicU64::new(0);
@@ -410,6 +451,7 @@ pub fn run(tier: Tier) -> i32 {
         "operand_lists": n_lists,
         "line_sequences": n_seqs,
         "string_content_programs": n_strings.load(Ordering::Relaxed),
+        "literals_at_and_beyond_64_bits_programs": n_biglit.load(Ordering::Relaxed),
         "large_symbol_value_programs": n_bigsym.load(Ordering::Relaxed),
         "outcomes": {"ok": n_ok.load(Ordering::Relaxed), "err": n_err.load(Ordering::Relaxed)},
         "caps_hit": [],
